@@ -278,6 +278,7 @@ class C02(Check):
     runs = {'quick': 5000, 'thorough': 120000}
     shrink_lists = (('ops',), ('config', 'mws'))
     hashseeds = {'quick': [1, 2], 'thorough': [1, 2, 3, 4]}
+    hashseed_sample = {'quick': 300, 'thorough': 3000}    # the property is quantified over the hash seed
     rule = ('resolvable-by-construction injection stacks (0-4 middlewares at app/route level, any phases, signatures mixing '
             'required/defaulted/keyword-only parameters over URL bindings (str/int/multi), resources, built-ins, provides; '
             'endpoint/render as function, lambda, bound method, callable object, static/class method, clastic_decorator-wrapped) '
